@@ -74,6 +74,19 @@ func (w *World) foldRound(overlay map[string][]byte, st *foldState) map[string][
 	if len(out) > 0 {
 		return out
 	}
+	// calls of new generic helpers with concrete type arguments go to specialised copies (monomorph.go)
+	for _, p := range w.Pkgs {
+		rec := tab.Funcs[relOfPkg(p.Types)]
+		if rec == nil {
+			continue
+		}
+		for name, b := range w.monomorphize(p, rec, overlay) {
+			out[name] = b
+		}
+	}
+	if len(out) > 0 {
+		return out
+	}
 	// a struct parameter that is only used field by field is passed as one parameter per field (sroa.go)
 	for _, p := range w.Pkgs {
 		if tab.Funcs[relOfPkg(p.Types)] == nil {
@@ -619,27 +632,52 @@ func foldLocalClosure(fset *token.FileSet, pkg *types.Package, info *types.Info,
 		return nil, ""
 	}
 	type cand struct {
-		as  *ast.AssignStmt
+		as  ast.Stmt
 		lit *ast.FuncLit
 		obj types.Object
 	}
 	var cands []cand
 	ast.Inspect(f, func(n ast.Node) bool {
-		blk, ok := n.(*ast.BlockStmt)
-		if !ok {
+		var list []ast.Stmt
+		switch x := n.(type) {
+		case *ast.BlockStmt:
+			list = x.List
+		case *ast.CaseClause:
+			list = x.Body
+		case *ast.CommClause:
+			list = x.Body
+		default:
 			return true
 		}
-		for _, st := range blk.List {
-			as, ok := st.(*ast.AssignStmt)
-			if !ok || as.Tok != token.DEFINE || len(as.Lhs) != 1 || len(as.Rhs) != 1 {
+		for _, st := range list {
+			var id *ast.Ident
+			var lit *ast.FuncLit
+			switch x := st.(type) {
+			case *ast.AssignStmt:
+				if x.Tok != token.DEFINE || len(x.Lhs) != 1 || len(x.Rhs) != 1 {
+					continue
+				}
+				id, _ = x.Lhs[0].(*ast.Ident)
+				lit, _ = x.Rhs[0].(*ast.FuncLit)
+			case *ast.DeclStmt:
+				// `var f func(T) bool = func(...) {...}`: what the inliner writes for a function-valued parameter
+				gd, ok := x.Decl.(*ast.GenDecl)
+				if !ok || gd.Tok != token.VAR || len(gd.Specs) != 1 {
+					continue
+				}
+				vs := gd.Specs[0].(*ast.ValueSpec)
+				if len(vs.Names) != 1 || len(vs.Values) != 1 {
+					continue
+				}
+				id = vs.Names[0]
+				lit, _ = vs.Values[0].(*ast.FuncLit)
+			default:
 				continue
 			}
-			id, ok1 := as.Lhs[0].(*ast.Ident)
-			lit, ok2 := as.Rhs[0].(*ast.FuncLit)
-			if !ok1 || !ok2 || id.Name == "_" || info.Defs[id] == nil || litParamCount(lit) < 0 {
+			if id == nil || lit == nil || id.Name == "_" || info.Defs[id] == nil || litParamCount(lit) < 0 {
 				continue
 			}
-			cands = append(cands, cand{as, lit, info.Defs[id]})
+			cands = append(cands, cand{st, lit, info.Defs[id]})
 		}
 		return true
 	})
